@@ -234,6 +234,12 @@ class P(Prop):
         (M, "TV.C15.pow_kernel_windows", "Cubic/Spheric kernels of any sigma >= 1: odd, symmetric, non-negative window summing to 1"),
         (M, "TV.C15.exp_kernel_windows", "Gaussian/Exponential kernels, math.exp any positive-valued function, support 3*sigma >= 1: odd, symmetric, non-negative window summing to 1"),
         (M, "TV.C15.smooth_gaussian", "Track.smooth(width) with the Gaussian function written out (math.exp positive): NaN-free coordinates of at least int(3*width) points become their mean signals under the Gaussian window, which exists and is well shaped"),
+        (M, "TV.C15.seqLoop_is_mean", "the loop `for af in dim` of filter_seq (any list length, Kernel object, Dirac): every listed signal becomes its mean signal, same window at every turn"),
+        (M, "TV.C15.operatePairs_inplace", "the in-place list form of Track.operate on feature names runs the loop of filter_seq"),
+        (M, "TV.C15.operate_output_omitted", "track.operate(FILTER, af, kernel) with the output name omitted filters af in place: it becomes (and the call returns) its mean signal, nothing else changes"),
+        (M, "TV.C15.operate_list_is_mean", "track.operate(FILTER, [names], kernel) with arg3 omitted or equal: every listed feature becomes its mean signal, one window for all, nothing returned, nothing else changed; lists of different lengths are refused"),
+        (M, "TV.C15.inDomain_normalise", "the domain does not depend on the scale of a weight list (it holds for the list normalised in place)"),
+        (M, "TV.C15.filterSeq_twice", "filter_seq called twice on the same track with the same kernel object: mean signals, then mean signals of the mean signals under the same window (temp left by the first call and the in-place normalisation do not matter)"),
         (M, "TV.C15.zero_norm_fails", "outside the domain (a zero norm) the method fails with a division by zero for a Kernel object, never a wrong value"),
     ]
     partial = []
@@ -476,6 +482,14 @@ class P(Prop):
             c["const"] = const
         if not session and not self._in_domain(c):
             return None
+        if not session and k["t"] not in ("feat", "int") and len(w) >= 3 and how != "str" and rng.random() < 0.2:
+            # the same track filtered a second time with the same kernel object (it finds the scratch feature 'temp' and a
+            # weight list already normalised): kept when the signals produced by the first call are in the domain again
+            fbk = bool(k.get("fb"))
+            allsig = dict(sigs, **feats)
+            firsts = [mean_oracle(w, allsig[d], fbk) for d in dims]
+            if all("undefined" not in f and domain_ok(w, f) for f in firsts):
+                c["twice"] = True
         return c
 
     def cases(self, rng, tier):
@@ -802,6 +816,8 @@ class P(Prop):
             t["filterBoundary"] = k["fb"]
         if "how" in case:
             t["dim"] = case["how"]
+        if kind == "seq":
+            t["calls_on_the_track"] = 2 if case.get("twice") else 1
         if kind == "opl":
             t["form"] = case["form"]
         if kind == "op":
@@ -954,7 +970,17 @@ class P(Prop):
                     r = self.F.filter_seq(t, kern, "".join(st["dims"]))
                 else:
                     r = self.F.filter_seq(t, kern, list(st["dims"]))
-            res = {"sigs": self.read_track(t), "same": r is t}
+                if st.get("twice"):
+                    # a second call on the same track with the same kernel object
+                    sigs1 = self.read_track(t)
+                    if how == "default":
+                        r = self.F.filter_seq(t, kern)
+                    elif how == "const":
+                        r = self.F.filter_seq(t, kern, getattr(self.F, st["const"]))
+                    else:
+                        r = self.F.filter_seq(t, kern, list(st["dims"]))
+                    res["sigs1"] = sigs1
+            res = dict(res, sigs=self.read_track(t), same=r is t)
         except BaseException as e:
             if isinstance(e, KeyboardInterrupt):
                 raise
@@ -1132,7 +1158,10 @@ class P(Prop):
             return ls
         if kind in ("seq", "badk"):
             k = case["k"]
-            ls = ["C15.seq %s %s %s %s" % (sc, self.dim_tok(case), self.track_tok(sc, case), self.kspec(sc, k))]
+            if case.get("twice"):
+                ls = ["C15.seqn %s 2 %s %s %s" % (sc, self.dim_tok(case), self.track_tok(sc, case), self.kspec(sc, k))]
+            else:
+                ls = ["C15.seq %s %s %s %s" % (sc, self.dim_tok(case), self.track_tok(sc, case), self.kspec(sc, k))]
             if self.needs_sw(k):
                 ls.append("C15.sw %s %s" % (sc, self.kspec(sc, k)))
             return ls
@@ -1225,7 +1254,13 @@ class P(Prop):
                     "kafter": None if r[1] == "none" else self.vals(sc, r[1]), "window": self.decode_window(case, case["k"], replies)}
         if kind in ("seq", "smooth", "badk"):
             k = case["k"] if kind != "smooth" else {"t": "gaussian", "p": case["w"], "fb": None}
-            res = self.decode_call(sc, replies[0], self.decode_window(case, k, replies))
+            if case.get("twice"):
+                parts = replies[0].split(" # ")
+                res = self.decode_call(sc, parts[-1], self.decode_window(case, k, replies))
+                if len(parts) == 2 and "err" not in res:
+                    res["sigs1"] = self.decode_call(sc, parts[0], None)["sigs"]
+            else:
+                res = self.decode_call(sc, replies[0], self.decode_window(case, k, replies))
             if "err" in res:
                 res.pop("state")
             return res
@@ -1306,6 +1341,25 @@ class P(Prop):
         if not out["same"]:
             return "filter_seq did not return the track it filtered"
         allsig = dict({"x": st["x"], "y": st["y"], "z": st["z"]}, **st.get("feats", {}))
+        if st.get("twice"):
+            # two calls on the same track: the first is judged on the track read between the calls, the second on what the
+            # first one left (when that is in the domain again)
+            first = out.get("sigs1")
+            if not isinstance(first, dict):
+                return "the track was not read after the first call"
+            for nm, v in allsig.items():
+                if nm in dims:
+                    bad = check_signal(w, v, fb, first.get(nm), "%s after the first call" % nm)
+                    if bad:
+                        return bad
+                    v1 = first[nm]
+                    if domain_ok(w, v1):
+                        bad = check_signal(w, v1, fb, out["sigs"].get(nm), "%s after the second call (input: the result of the first)" % nm)
+                        if bad:
+                            return bad
+                elif out["sigs"].get(nm) != [canon(num(a)) for a in v] or first.get(nm) != [canon(num(a)) for a in v]:
+                    return "%s was not to be filtered but changed: %r -> %r" % (nm, v, out["sigs"].get(nm))
+            return None
         for nm, v in allsig.items():
             got = out["sigs"].get(nm)
             if nm in dims and len(w) != 1:
